@@ -97,6 +97,8 @@ type recSnap struct {
 	conss   []int
 	subs    []int
 	poolIDs map[int]bool // ids of the staking pools whose record exists
+	lastPool uint64      // multistaking LastPoolId
+	dupPool  string      // two pool records with one id (share denominations v<id>/… would coincide)
 }
 
 type recEnv struct {
@@ -264,8 +266,12 @@ func (e *recEnv) snap(ctx sdk.Context) *recSnap {
 	}
 	s.poolIDs = map[int]bool{}
 	for _, p := range msk.GetAllStakingPools(ctx) {
+		if s.poolIDs[int(p.Id)] {
+			s.dupPool = fmt.Sprintf("pool id %d is used by two pool records (one of them of validator %s)", p.Id, p.Validator)
+		}
 		s.poolIDs[int(p.Id)] = true
 	}
+	s.lastPool = msk.GetLastPoolId(ctx)
 	{ // pool-delegator flags, read raw (a pool record can be overwritten by a rotation while its flags stay): 0x05 ++ poolId(8) ++ address
 		it := sdk.KVStorePrefixIterator(ctx.KVStore(app.GetKey(mstypes.ModuleName)), mstypes.KeyPrefixPoolDelegator)
 		for ; it.Valid(); it.Next() {
@@ -483,9 +489,9 @@ func (s *recSnap) String() string {
 	if s.corrupt {
 		b01 = "1"
 	}
-	return fmt.Sprintf("bal=%s sup=%s acc=%s sec=%s tok=%s byd=%s rot=%s hold=%s hrw=%s clm=%s val=%s cons=%s q=%s recs=%s idx=%s reqs=%s corrupt=%s",
+	return fmt.Sprintf("bal=%s sup=%s acc=%s sec=%s tok=%s byd=%s rot=%s hold=%s hrw=%s clm=%s val=%s cons=%s q=%s recs=%s idx=%s reqs=%s corrupt=%s lastpool=%d",
 		recJoin(",", bal), recJoin(",", sup), recInts(acc), recJoin(";", sec), recJoin(";", tok), recJoin(";", byd), recJoin(";", rot), recJoin(";", hold),
-		recJoin(";", hrw), recJoin(";", clm), recJoin(";", val), recJoin(";", cons), recInts(s.queue), recJoin(";", recs), recJoin(";", idx), recJoin(";", reqs), b01)
+		recJoin(";", hrw), recJoin(";", clm), recJoin(";", val), recJoin(";", cons), recInts(s.queue), recJoin(";", recs), recJoin(";", idx), recJoin(";", reqs), b01, s.lastPool)
 }
 
 func (e *recEnv) obsLine(s *recSnap) string {
@@ -517,6 +523,7 @@ func (e *recEnv) emitInit(ctx sdk.Context) *recSnap {
 	e.emit("rec reset", "ok")
 	bond := sdkmath.NewInt(int64(e.w.app.CustomGovKeeper.GetNetworkProperties(ctx).ValidatorRecoveryBond)).MulRaw(1_000_000)
 	e.emit(fmt.Sprintf("rec init-bond n=%s", bond), "ok")
+	e.emit(fmt.Sprintf("rec init-lastpool n=%d", s.lastPool), "ok")
 	order := append([]int{}, s.accs[:len(e.addrs)]...)
 	sort.Slice(order, func(i, j int) bool { return e.addrs[order[i]].String() < e.addrs[order[j]].String() })
 	e.emit("rec order "+recInts(order), "ok")
@@ -613,6 +620,9 @@ func (e *recEnv) seed(ctx sdk.Context, nVal int, monikers map[int]string, rich [
 	}
 	mss := mskeeper.NewMsgServerImpl(app.MultiStakingKeeper, app.BankKeeper, app.CustomGovKeeper, app.CustomStakingKeeper)
 	for v := 0; v < nVal; v++ {
+		if nVal >= 3 && v == nVal-1 {
+			continue // this validator opens its pool later (op newpool), possibly after rotations of the others
+		}
 		if _, err := mss.UpsertStakingPool(sdk.WrapSDKContext(ctx), &mstypes.MsgUpsertStakingPool{Sender: A[v].String(), Validator: sdk.ValAddress(A[v]).String(), Enabled: true, Commission: sdk.NewDecWithPrec(5, 2)}); err != nil {
 			panic(err)
 		}
@@ -636,6 +646,9 @@ func (e *recEnv) seed(ctx sdk.Context, nVal int, monikers map[int]string, rich [
 		a := A[i]
 		if rng.Intn(3) > 0 {
 			v := rng.Intn(nVal)
+			if nVal >= 3 && v == nVal-1 {
+				v = 0 // the last validator has no pool yet
+			}
 			if _, err := mss.Delegate(sdk.WrapSDKContext(ctx), &mstypes.MsgDelegate{DelegatorAddress: a.String(), ValidatorAddress: sdk.ValAddress(A[v]).String(), Amounts: ukex(int64(1000 + rng.Intn(100000)))}); err != nil {
 				panic(err)
 			}
@@ -768,6 +781,9 @@ func (e *recEnv) exec(op recOp) (code string, before, after *recSnap) {
 	before = e.snap(e.ctx)
 	err := withCache(e.ctx, op.run)
 	code = recCode(err)
+	if op.kind == "newpool" && code != "ok" {
+		code = "err" // the model does not tell the staking / multistaking error codes apart
+	}
 	e.emit(op.line, code)
 	after = e.obs(e.ctx)
 	r.Count(op.kind + ":" + code)
@@ -816,6 +832,9 @@ func (e *recEnv) exec(op recOp) (code string, before, after *recSnap) {
 // (G3) backing, (G4) rr supply = record, (G5) consensus-address index
 func (e *recEnv) globalOracles(s *recSnap, where string) {
 	r := e.r
+	if s.dupPool != "" {
+		r.Fail("C10/recovery/duplicate-pool-id", fmt.Sprintf("%s after %s: %s", e.tag, where, s.dupPool), e.replay())
+	}
 	owed := sdk.ZeroInt()
 	denomOwners := map[string]int{}
 	var toks []int
@@ -896,6 +915,35 @@ func recMovedKinds(bySecret bool) []string {
 	return []string{"compound", "delegator", "rewards", "pool", "councilor", "actor", "vote"}
 }
 
+// recOwners: the properties (besides C03) whose state a claim kind belongs to: the same oracle failure is reported under
+// each of them, so that the check of that property - which runs this scenario with OnlyProp set - sees it
+func recOwners(kind string) []string {
+	switch kind {
+	case "actor", "councilor":
+		return []string{"C07"}
+	case "vote":
+		return []string{"C08"}
+	case "spendclaim", "collective":
+		return []string{"C18"}
+	case "compound", "delegator", "rewards", "pool":
+		return []string{"C10"}
+	case "custsettings":
+		return []string{"C17"}
+	case "validator":
+		return []string{"C05", "C14", "C15"}
+	case "account":
+		return []string{"C02"}
+	}
+	return nil
+}
+
+func (e *recEnv) failOwners(kind, suffix, what string) {
+	e.r.Fail("C03/recovery/"+suffix, what, e.replay())
+	for _, p := range recOwners(kind) {
+		e.r.Fail(p+"/recovery/"+suffix, what, e.replay())
+	}
+}
+
 // after a successful rotation: everything the old address held (of the kinds this rotation moves) is at the
 // beneficiary, unchanged, and gone from the old address; identity records moved unchanged; the target lost nothing.
 func (e *recEnv) rotationOracles(line string, bySecret bool, old, nw int, before, after *recSnap) {
@@ -926,15 +974,15 @@ func (e *recEnv) rotationOracles(line string, bySecret bool, old, nw int, before
 		if k.a == old && moved[k.kind] && !(k.kind == "rewards" && v == 0) {
 			nk := recClaimKey{k.kind, k.sub, nw}
 			if got, ok := after.clm[nk]; !ok || got != v {
-				r.Fail("C03/recovery/claim-not-moved-to-beneficiary", fmt.Sprintf("%s: %s: %s/%d of %d (=%d) is not at the beneficiary %d afterwards (found %v %d)", e.tag, line, k.kind, k.sub, old, v, nw, ok, got), e.replay())
+				e.failOwners(k.kind, "claim-not-moved-to-beneficiary", fmt.Sprintf("%s: %s: %s/%d of %d (=%d) is not at the beneficiary %d afterwards (found %v %d)", e.tag, line, k.kind, k.sub, old, v, nw, ok, got))
 			}
 			if _, still := after.clm[k]; still {
-				r.Fail("C03/recovery/claim-left-at-old-address", fmt.Sprintf("%s: %s: %s/%d still recorded for %d", e.tag, line, k.kind, k.sub, old), e.replay())
+				e.failOwners(k.kind, "claim-left-at-old-address", fmt.Sprintf("%s: %s: %s/%d still recorded for %d", e.tag, line, k.kind, k.sub, old))
 			}
 		}
 		if k.a == old && !moved[k.kind] {
 			if got, ok := after.clm[k]; !ok || got != v {
-				r.Fail("C03/recovery/unmoved-claim-changed", fmt.Sprintf("%s: %s: %s/%d of %d changed although this rotation does not move it", e.tag, line, k.kind, k.sub, old), e.replay())
+				e.failOwners(k.kind, "unmoved-claim-changed", fmt.Sprintf("%s: %s: %s/%d of %d changed although this rotation does not move it", e.tag, line, k.kind, k.sub, old))
 			}
 		}
 		if k.a == nw {
@@ -944,12 +992,17 @@ func (e *recEnv) rotationOracles(line string, bySecret bool, old, nw int, before
 			}
 		}
 	}
+	// the x/auth account of the rotated address stays on record (its sequence number is what refuses the replay of the
+	// transactions it signed)
+	if before.acc[old] && !after.acc[old] {
+		e.failOwners("account", "account-of-rotated-address-removed", fmt.Sprintf("%s: %s: the account record of %d is gone after the rotation", e.tag, line, old))
+	}
 	if vb, ok := before.val[old]; ok {
 		if va, ok2 := after.val[nw]; !ok2 || va != vb {
-			r.Fail("C03/recovery/validator-not-moved-to-beneficiary", fmt.Sprintf("%s: %s: validator record of %d not found unchanged at %d", e.tag, line, old, nw), e.replay())
+			e.failOwners("validator", "validator-not-moved-to-beneficiary", fmt.Sprintf("%s: %s: validator record of %d not found unchanged at %d", e.tag, line, old, nw))
 		}
 		if _, still := after.val[old]; still {
-			r.Fail("C03/recovery/validator-left-at-old-address", fmt.Sprintf("%s: %s", e.tag, line), e.replay())
+			e.failOwners("validator", "validator-left-at-old-address", fmt.Sprintf("%s: %s: a validator record is still stored under the rotated address %d", e.tag, line, old))
 		}
 		if tb, had := before.val[nw]; had {
 			r.Known(kfRecOverwrite, fmt.Sprintf("%s: %s: the target %d was itself a validator (consensus key %d); its record was overwritten", e.tag, line, nw, tb[0]))
@@ -1205,6 +1258,21 @@ func (e *recEnv) opRegHolder(a int) string {
 		return err
 	}})
 	e.r.Case(fmt.Sprintf("%s/reghold/%d/%s", e.tag, a, code), true)
+	return code
+}
+
+// opNewPool: MsgUpsertStakingPool by the account a (the owner of a validator, or not)
+func (e *recEnv) opNewPool(a int) string {
+	line := fmt.Sprintf("rec newpool a=%d", a)
+	code, _, _ := e.exec(recOp{kind: "newpool", rotOld: -1, line: line, allowed: []int{a}, run: func(c sdk.Context) error {
+		mss := mskeeper.NewMsgServerImpl(e.w.app.MultiStakingKeeper, e.w.app.BankKeeper, e.w.app.CustomGovKeeper, e.w.app.CustomStakingKeeper)
+		_, err := mss.UpsertStakingPool(sdk.WrapSDKContext(c), &mstypes.MsgUpsertStakingPool{Sender: e.addrs[a].String(), Validator: sdk.ValAddress(e.addrs[a]).String(), Enabled: true, Commission: sdk.NewDecWithPrec(5, 2)})
+		return err
+	}})
+	if code != "ok" {
+		code = "err"
+	}
+	e.r.Case(fmt.Sprintf("%s/newpool/%d/%s", e.tag, a, code), code == "ok")
 	return code
 }
 
@@ -1582,6 +1650,20 @@ func recHistoryL1(r *Rec, tag string, nOps int) {
 			e.opClaim(a)
 		default:
 			e.opXfer(pick(), pick(), "ukex", sdkmath.NewInt(1+rng.Int63n(1_000_000)))
+		}
+		if rng.Intn(14) == 0 {
+			// a validator's owner opens (or re-enables) its staking pool; mostly the current owner of a validator
+			var owners []int
+			s2 := e.snap(e.ctx)
+			for a := range s2.val {
+				owners = append(owners, a)
+			}
+			sort.Ints(owners)
+			a := pick()
+			if len(owners) > 0 && rng.Intn(5) > 0 {
+				a = owners[rng.Intn(len(owners))]
+			}
+			e.opNewPool(a)
 		}
 	}
 }
